@@ -421,7 +421,45 @@ class PoolRunner:
                 run_script(run, script)
                 self.add(scen, ("script", n), run, extra=[list(s) for s in script])
                 n += 1
+        n = self.stale_run_scripts(quick, n)
         self.overlap_scripts(quick, n)
+
+    def stale_run_scripts(self, quick, n):
+        """SEVERAL idle connections (one per origin, 2-4 origins) that go stale TOGETHER - all past their
+        keep-alive expiry, or all closed by the server, or a mixture - and then a request for each origin in
+        turn: every stale connection is dropped (never handed out), whatever its position in the pool."""
+        import itertools
+
+        from .pool_scenarios import Scenario, c
+
+        hosts = ["http://a.test", "http://b.test", "http://c.test", "http://d.test"]
+        for k_or in (2, 3, 4):
+            kinds = ["expire", "peerclose", "mixed"]
+            for kind in kinds:
+                for target in range(k_or):
+                    if quick and k_or == 4 and target not in (1, 3):
+                        continue
+                    calls, script = [], []
+                    for i in range(k_or):
+                        calls.append(c(f"r{i + 1}", hosts[i] + f"/{i + 1}", gates=("start",)))
+                        script.append(("go", f"r{i + 1}"))
+                    if kind == "expire":
+                        script.append(("advance", 3))
+                    elif kind == "peerclose":
+                        script += [("peerclose", hosts[i] + "/") for i in range(k_or)]
+                    else:
+                        script += [("peerclose", hosts[i] + "/") for i in range(0, k_or, 2)]
+                        script.append(("advance", 3))
+                    calls.append(c(f"r{k_or + 1}", hosts[target] + "/again", gates=("start",)))
+                    script.append(("go", f"r{k_or + 1}"))
+                    calls.append(c(f"r{k_or + 2}", hosts[(target + 1) % k_or] + "/again2", gates=("start",)))
+                    script.append(("go", f"r{k_or + 2}"))
+                    scen = Scenario(f"stale-run-o{k_or}-{kind}", dict(max_connections=k_or, keepalive_expiry=2), calls)
+                    run = scen.make()
+                    run_script(run, script)
+                    self.add(scen, ("stale-run", n), run, extra=[list(s) for s in script])
+                    n += 1
+        return n
 
     def overlap_scripts(self, quick, n):
         """Keep-alive histories in which responses are HELD OPEN while other things happen (a
